@@ -29,7 +29,7 @@ def payload_of(api, arg):
 
 class Execution(object):
     """What one schedule produced."""
-    __slots__ = ('sched', 'world', 'ws', 'harness', 'frames', 'garbage', 'events', 'wire_len')
+    __slots__ = ('sched', 'world', 'ws', 'harness', 'frames', 'garbage', 'events', 'wire_len', 'released', 'selectors_closed')
 
 
 def make_runner(h):
@@ -77,6 +77,20 @@ def make_runner(h):
                         ex.events.append(ev)
                         results.append(('event:' + ev.name, 'ok', None))
                 sc.spawn(0, loop_body)
+            if h.get('closer'):
+                def closer_body(results, _gen=gen, _ws=ws, _how=h['closer']):
+                    try:
+                        if _how == 'gen.close':
+                            _gen.close()
+                        else:
+                            _ws.__exit__(None, None, None)
+                            _gen.close()
+                        results.append(('abandon', 'ok', None, _how))
+                    except S.Abort:
+                        raise
+                    except BaseException as error:  # noqa
+                        results.append(('abandon', 'raised', error, _how))
+                sc.spawn(9, closer_body)
             for k, calls in enumerate(h['threads']):
                 def body(results, _calls=calls, _ws=ws):
                     for (api, arg) in _calls:
@@ -97,7 +111,14 @@ def make_runner(h):
             sc.state_probe = probe
             sc.run()
             ex.wire_len = len(world.writes)
-            gen.close()          # tidy up inside the world (nothing below looks at later writes)
+            if h.get('closer'):
+                import gc
+                del gen
+                gc.collect()
+                ex.released = world.released()
+                ex.selectors_closed = world.selectors_closed()
+            else:
+                gen.close()      # tidy up inside the world (nothing below looks at later writes)
         req, rest = ref_ws.split_http_request(b''.join(w.data for w in world.writes[:ex.wire_len]))
         ex.frames, ex.garbage = ref_ws.decode_client_stream(rest)
         return ex
